@@ -26,7 +26,7 @@ CLAIMS = {
 
 CLAIMS.update({
  "C05": dict(tech="deterministic simulation: seeded Next/Advance histories with exclusions, flags and ReplaceActual, step-by-step conformance with a reference list model",
-   text="Stateful exploration: per case one postings list of a built or merged segment (fixed chunk modes 1-7 so that few documents span many chunks, adaptive mode with >1024 postings, 1-hit lists), an exclusion bitmap (nil/empty/listed/everything/chunk-edge postings), optionally ReplaceActual(sub) before the first step, one of 8 flag combinations and up to 30 Next/Advance steps with non-decreasing targets; every step is compared with the model list, nil must stay nil, Count() must equal the non-excluded postings.",
+   text="Stateful exploration: per case one postings list of a built or merged segment (fixed chunk modes 1-7 so that few documents span many chunks, adaptive mode with >1024 postings, 1-hit lists), an exclusion bitmap (nil/empty/listed/everything/chunk-edge postings), optionally ReplaceActual(sub) before the first step, one of 8 flag combinations and up to 30 Next/Advance steps with non-decreasing targets; every step is compared with the model list, nil must stay nil, Count() must equal the non-excluded postings. Every posting handed out is renumbered by the harness (SetNumber, as the index layer does) before the next step.",
    note="Trusted: reference model; Advance targets are generated strictly above the last returned document (the API contract).", ref="DESIGN.md §5 C05"),
  "C06": dict(tech="deterministic simulation: seeded visit histories on one segment object over block-shaped batches, compared with the reference model",
    text="Batches shaped around the 128-document stored blocks (120-262 documents, documents without any stored value, 6-13 byte values, very short records at the end of a block), built, loaded (memory/file over the simulated disk) and merged (byte-copy and re-encode paths); sequences of up to 24 visits on one segment object including early-stopping visitors, visitors that visit another document from inside the callback, and n = Count, Count+1, 2^40, 2^32+d, 2^63+d.",
@@ -35,7 +35,7 @@ CLAIMS.update({
    text="Readers opened on random subsets/orders of fields (incl. unknown and non-doc-value fields) visit existing documents forwards, backwards, randomly and ping-pong across chunk boundaries on built, loaded and merged segments of up to 4200 documents; each visit must deliver exactly the model's sorted terms for the requested doc-value fields. Batches with holes (whole chunks without values), mixed per-instance doc-value flags, _id with doc values, 16 KiB terms; additionally every document of every segment of seeded merge worlds and of giant segments (>16 384 documents) is compared.",
    note="Trusted: reference model. Document numbers >= Count are not visited (outside the property's quantifier).", ref="DESIGN.md §5 C07"),
  "C08": dict(tech="deterministic simulation: seeded dictionary queries (ranges, automata, lookups) on built and merged segments, compared with the reference model",
-   text="Per case up to 4 queries: field (known, unknown, empty name), [start,end) with nil or non-empty bounds drawn around the vocabulary, prefix / accept-all / contains-byte automata implemented by the harness; the enumeration must equal the model's filtered term list with true document counts, nil must stay nil (or the enumeration is abandoned early and closed), Contains and PostingsList (recycling the previous list) must agree for present and absent terms.",
+   text="Per case up to 4 queries: field (known, unknown, empty name), [start,end) with nil or non-empty bounds drawn around the vocabulary, prefix / accept-all / contains-byte automata implemented by the harness; the enumeration must equal the model's filtered term list with true document counts, nil must stay nil (or the enumeration is abandoned early and closed), Contains and PostingsList (recycling the previous list) must agree for present and absent terms. Giant segments (16 384-66 100 documents, one term carried by every document: completely full bitmap containers) have all dictionaries and entry counts compared with the model.",
    note="Trusted: reference model; harness DFAs.", ref="DESIGN.md §5 C08"),
  "C09": dict(tech="deterministic simulation: seeded baton scheduler interleaving reader tasks, re-entrant visitors and a concurrent merge at storage/callback seams; per-op solo-result oracle; Go race detector under the serialised schedule (baton invisible to the detector)",
    text="2-4 reader tasks (dictionary, postings, stored, doc values, DocsMatchingTerms, stats, persist; visitors that re-enter the segment) plus optionally a merge task share one freshly loaded segment (memory- or file-backed: every storage read, visitor callback and operation boundary is a yield point). The schedule list in the case decides every switch. Every operation must deliver exactly the model's solo result, the merge its solo bytes, no panic/hang; the same cases run in a -race build whose baton uses raw syscalls, so every pair of conflicting accesses ice does not order is reported deterministically. Tasks also observe Size(), Close() what they opened (sometimes twice) or recycle one postings list/iterator; an optional prelude lets a merge run into a storage fault before the tasks start.",
@@ -43,11 +43,11 @@ CLAIMS.update({
  "C10": dict(tech="deterministic simulation of two code versions sharing a disk: differential observation current vs frozen reference implementation in both directions, plus a committed golden corpus",
    text="Every segment of seeded build/merge worlds is written by the current code and by the frozen reference copy (/verif/refice); each image is loaded memory- and file-backed by both readers and all observations must agree (and agree with the model). 48 committed reference-written files with recorded observations must be reproduced by the current reader alone.",
    note="Trusted: /verif/refice (pinned ice + the format-neutral fix commits listed in refice/ORIGIN); the golden corpus was generated by it and cross-checked against the model.", ref="DESIGN.md §5 C10"),
- "C12": dict(tech="deterministic simulation with exhaustive per-workload fault enumeration: failing writer at every byte offset, fail-once samples, close channel closed at every seam event",
+ "C12": dict(tech="deterministic simulation with exhaustive per-workload fault enumeration: failing writer at every byte offset, fail-once samples, close channel closed at every seam event; a sample of the workloads also under the Go race detector",
    text="Per generated workload (Segment.WriteTo of a built/memory/file view, Merger.WriteTo with buffer sizes 0/1/2/7/64/4096, unbuffered hook merge) the fault-free run fixes the reference bytes; then the simulated writer fails persistently after k bytes for every k in [0,L), fails once at 16 sampled offsets, and for merges the close channel is closed before the call, at every write and every input storage read (inputs are reloaded cold for every execution), and after the last event. Every third failing offset fails with an error that calls itself Temporary(); the simulated file offers Sync(). Error-or-complete-file oracle; the fault-free output is validated against the model; after a failed attempt a healthy writer must receive the identical file. The lifecycle scenario adds failed persists and cancelled/failed background merges inside an index life cycle; merge-read-fault adds failing input storage during merges; the arguments handed to Merge (drops slice, bitmaps, segments slice) must come back untouched from every failed or cancelled call.",
    note="exhaustive refers to each workload's fault space; workloads are sampled. Writers never return n<len with nil error.", ref="DESIGN.md §5 C12"),
  "C13": dict(tech="deterministic simulation: seeded lookup histories reusing earlier postings lists/iterators/dictionaries/readers across segments and encodings, compared with the reference model",
-   text="Histories of up to 30 lookups over 1-5 segments in which each postings lookup may pass any postings list / iterator created earlier (from any segment, 1-hit or general, exhausted or half-consumed) as prealloc, Dictionary objects and open DictionaryIterators are continued across other lookups, one doc-value reader per segment is reused, interleaved with stored-field visits (pooled contexts), earlier postings lists are walked again later, term keys live in one scratch buffer, lookups are sticky (three-step patterns), two dictionary iterators stay open on one Dictionary, twin segments share layouts; each lookup's result must equal the model's. The docvalues scenario (one reader, long visit histories) runs under this check as well.",
+   text="Histories of up to 30 lookups over 1-5 segments in which each postings lookup may pass any postings list / iterator created earlier (from any segment, 1-hit or general, exhausted or half-consumed) as prealloc, Dictionary objects and open DictionaryIterators are continued across other lookups, one doc-value reader per segment is reused, interleaved with stored-field visits (pooled contexts), earlier postings lists are walked again later, term keys live in one scratch buffer, lookups are sticky (three-step patterns), two dictionary iterators stay open on one Dictionary, twin segments share layouts; each lookup's result must equal the model's, iterators are sometimes created and never stepped before being recycled, and what the optimisation interface (ActualBitmap, DocNum1Hit) reports for every iterator must equal what an iterator made from fresh objects reports. The docvalues scenario (one reader, long visit histories) runs under this check as well.",
    note="Trusted: reference model.", ref="DESIGN.md §5 C13"),
  "C14": dict(tech="deterministic simulation: seeded build histories and baton-scheduled concurrent builders interleaved at document-iterator callbacks; byte-equality oracle; race-detector build",
    text="The target batch is built, then again after each of 0-5 other builds (other shapes, failing builds with an unknown chunk mode), then concurrently with 1-3 other New calls interleaved by the scheduler at every Document.EachField callback; all builds of one (batch, norm, chunk mode) must be byte-identical. The same cases run under -race with the invisible baton. Pool reuse is measured through the verif probe.",
@@ -61,8 +61,8 @@ CLAIMS.update({
  "C18": dict(tech="deterministic simulation: seeded term lists over built/loaded/merged segments compared with the reference model's union",
    text="Lists of 0-12 (field, term) pairs with repeats, absent terms, unknown fields (incl. the empty name), field switches inside the list and 1-hit terms; absent terms take texts that exist in other fields, lists of 63-300 entries, empty terms passed as nil slices; the returned bitmap must equal the model's union, never error or panic. Lifecycle scenario (deletes resolved per segment) included.",
    note="Trusted: reference model.", ref="DESIGN.md §5 C18"),
- "C19": dict(tech="deterministic simulation with exhaustive per-workload fault enumeration: storage fails from every read index on (3 error kinds) and transiently, with lock invariant and hang detector",
-   text="Per generated workload (file-backed segment, program of 3-12 read calls of all kinds) the fault-free run counts R storage reads; then for every j in [0,R] the simulated disk fails from read j on with os.ErrClosed / EIO / short read, and for windows of 1 and 3 reads; oracle: no panic, a call that saw a storage error reports an error or an empty result, after every call no segment mutex is held and all later calls return (goroutine-state hang detector as backstop), bounded reads per call after a transient fault. after an error the same iterator/reader is used again; DocsMatchingTerms lists span several fields. 5% of workloads additionally use a real temp file closed before each call in turn. A second scenario samples 30-80 fault positions on multi-chunk segments of 1 000-4 000 documents; a third lets the storage of a merge's file-backed inputs fail once or for good at sampled read positions (error, or the identical file). Every read of Load itself is enumerated too. After a transient fault every operation is repeated with fresh objects and must read what the segment holds. Stall watchdog: a shard blocked inside ice (lock, semaphore, channel) for 420 s is reported as a hang.",
+ "C19": dict(tech="deterministic simulation with exhaustive per-workload fault enumeration: storage fails from every read index on (3 error kinds) and transiently, with lock invariant and hang detector; a sample of the workloads also under the Go race detector (nothing left behind by a failed call may race with the next use)",
+   text="Per generated workload (file-backed segment, program of 3-12 read calls of all kinds) the fault-free run counts R storage reads; then for every j in [0,R] the simulated disk fails from read j on with os.ErrClosed / EIO / short read, and for windows of 1 and 3 reads; oracle: no panic, a call that saw a storage error reports an error or an empty result (or, if it absorbed the failed read, the operation delivers the complete right result), after every call no segment mutex is held and all later calls return (goroutine-state hang detector as backstop), bounded reads per call after a transient fault. after an error the same iterator/reader is used again; DocsMatchingTerms lists span several fields. 5% of workloads additionally use a real temp file closed before each call in turn. A second scenario samples 30-80 fault positions on multi-chunk segments of 1 000-4 000 documents; a third lets the storage of a merge's file-backed inputs fail once or for good at sampled read positions (error, or the identical file). Every read of Load itself is enumerated too. After a transient fault every operation is repeated with fresh objects and must read what the segment holds. Stall watchdog: a shard blocked inside ice (lock, semaphore, channel) for 420 s is reported as a hang.",
    note="exhaustive refers to each workload's fault space; workloads are sampled. Correctness of data returned after a fault is not asserted.", ref="DESIGN.md §5 C19"),
 })
 
